@@ -179,7 +179,7 @@ PROPS["C08"] = dict(
     technique="unconstrained rapid state machine over the session state machine; oracle = trace automaton over the ordered log of application callbacks, per-connection frames and channel closure",
     level_note=SESSION_NOTE,
     stages=[dict(name="rapid", kind="rapid", run="^TestC08_Rapid$", checks=(2500, 50000), shards=(12, 16), timeout=(600, 3000))],
-    require=["history-with:logged-on", "history-with:left-schedule", "role:initiator", "role:acceptor"],
+    require=["history-with:logged-on", "history-with:left-schedule", "role:initiator", "role:acceptor", "history-with:application-refused-logon"],
     assumptions=["an OnLogout without a preceding OnLogon (initiator whose logon is never answered) is not forbidden by the statement and not flagged",
                  "schedule windows are placed three hours around the real clock; leaving the schedule is one CheckSessionTime call with a virtual instant twelve hours away",
                  "after a stop request completed the run loop would exit: no further events are delivered"],
